@@ -305,6 +305,21 @@ def run_unit(name, tier="quick", config="A", opts=None, keep=None):
             r2 = run_unit(name, tier, config, o2, keep)
             r2.setdefault("auto_included_items", sorted(set(o2["extra_items"])))
             return r2
+        # the unit was rejected (no verification result) inside repo functions that are under contract: run again with
+        # those functions demoted to their contracts, so that the rest of the unit is still decided; the demoted
+        # functions come back as "not extractable" suspects (directed search)
+        rej = [f for f in rejected_in if (f.get("message") or "").startswith("unit rejected by Verus")]
+        if rej and not failed and not vr.get("verified") and rc != -9:
+            dem = dict(opts.get("demote") or {})
+            new_dem = {f["function"]: f.get("message") or "rejected" for f in rej if f["function"] not in dem}
+            if new_dem and len(dem) < 6:
+                dem.update(new_dem)
+                o2 = dict(opts, demote=dem)
+                if not keep:
+                    rm_rf(d)
+                r2 = run_unit(name, tier, config, o2, keep)
+                r2.setdefault("demoted_functions", sorted(dem))
+                return r2
         if rc == -9:
             undec.append("verus timed out")
         if not vr and not failed and not undec:
